@@ -7,7 +7,7 @@
    run loop.  Go's channel (capacity 1 = one-slot option) and sync.Mutex (atomic sections)
    semantics are assumed by the model. *)
 From Eino Require Import Base.Util Model.TaskMgr Model.Confluence.
-From Eino Require Import Proofs.TaskMgr Proofs.TaskMgrProgress Proofs.TaskMgrTrace Proofs.Confluence Proofs.Eager.
+From Eino Require Import Proofs.TaskMgr Proofs.TaskMgrProgress Proofs.TaskMgrTrace Proofs.Confluence Proofs.Eager Proofs.HandoffOrder.
 From Coq Require Import Permutation.
 
 (* ---- every finished task is in exactly one of l / done / the collector's hands / collected;
@@ -87,6 +87,17 @@ Theorem report_diamond : forall g s a b,
   fst a <> fst b -> ceq (report g (report g s a) b) (report g (report g s b) a).
 Proof. exact report_diamond. Qed.
 Print Assumptions report_diamond.
+
+(* ---- the two models composed (batch mode): from every reachable state of the hand-off protocol,
+        on every maximal run (every interleaving of executors and collector) waitAll returns, and
+        calculateNextTasks on the tasks in the order they were collected is what it is on the
+        order they were submitted in ([outs out] pairs every task with its deterministic output) ---- *)
+Theorem batch_step_through_handoff : forall s, reach s ->
+  AF (fun s' => drained s' /\ reach s' /\ map fst (epcs s') = map fst (epcs s) /\
+        forall m g st out,
+          next_eq (calc_next m g st (outs out (collected s'))) (calc_next m g st (outs out (epcs s)))) s.
+Proof. exact batch_step_through_handoff. Qed.
+Print Assumptions batch_step_through_handoff.
 
 (* ---- eager mode (Workflow): [pick] = any schedule (which running task completes next).
         Two runs that deliver a value deliver the same value, computed from the same executions
@@ -257,4 +268,18 @@ Proof.
   split; [intros n Hn Hf; vm_compute in Hn; vm_compute;
           intuition (subst; try (exfalso; apply Hf; reflexivity); auto)|].
   vm_compute. split; reflexivity.
+Qed.
+
+(* the composed statement is not vacuous: a reachable drained state whose collection order differs
+   from the submission order *)
+Example handoff_nonvacuous :
+  exists s, reach s /\ drained s /\ map fst (epcs s) = [3; 4]%N /\ map fst (collected s) = [4; 3]%N.
+Proof.
+  destruct (run_trace init 0
+     [EvSpawn 3 BOk; EvSpawn 4 BOk; EvLockE 3; EvPush 3 false; EvSend 3; EvUnlockE 3;
+      EvAwait; EvRecv 3 false; EvLockC; EvUnlockC;
+      EvLockE 4; EvPush 4 false; EvSend 4; EvUnlockE 4;
+      EvAwait; EvRecv 4 false; EvLockC; EvUnlockC]%N) as [s|] eqn:E; [|vm_compute in E; discriminate].
+  exists s. split; [eapply run_trace_sound; [apply r_init|exact E]|].
+  vm_compute in E. inversion E; subst; simpl. repeat split.
 Qed.
